@@ -628,7 +628,7 @@ pub fn prop_c05() -> Prop {
         id: "C05",
         scenarios: vec![
             Scenario { name: "roundtrip", f: roundtrip, thorough_only: false,
-                bounds: "every shape of <=7 (quick) / <=9 (thorough) elements with known values + 21 larger shapes + every shape of <=4 (5) elements with obscured elements, each with 0, 1 or 2 further positions (any) elided / encrypted / compressed x every digest order: CBOR, UR and untagged routes; identical, same case and digest at every position, same bytes after re-encoding",
+                bounds: "every shape of <=7 (quick) / <=9 (thorough) elements with known values + 30 hand-written shapes + every shape of <=4 (5) elements with obscured elements, each with 0, 1 or 2 further positions (any) elided / encrypted / compressed x every digest order: CBOR, UR and untagged routes; identical, same case and digest at every position, same bytes after re-encoding",
                 api: &["tagged_cbor", "untagged_cbor", "try_from_cbor_data", "from_untagged_cbor", "ur_string", "from_ur_string", "is_identical_to", "PartialEq"] },
             Scenario { name: "after_operation", f: after_operation, thorough_only: false,
                 bounds: "13 start envelopes x each of the 33 operations of C04 with every argument choice x every digest order: the result decodes to an identical envelope (case and digest at every position, identical bytes on re-encoding, UR route)",
@@ -646,7 +646,7 @@ pub fn prop_c06() -> Prop {
         id: "C06",
         scenarios: vec![
             Scenario { name: "mutations", f: mutations, thorough_only: false,
-                bounds: "valid encoding of every shape of <=6 (quick) / <=8 (thorough) elements + 21 larger shapes + obscured shapes <=4 x every single structural mutation of its CBOR tree (swap two assertion elements, duplicate one (in place / at the end), subject-only node, empty array, leaf / known value / wrapped assertion in an assertion slot, array extended, two-entry / empty assertion map, leaf retagged #6.24 (alias) / #6.999 / untagged, wrapped retagged, obscured element without digest / retagged, digest of 31 / 33 / 0 bytes, known value replaced by negative / text / float / bool), thorough: also double mutations x every digest order. Verdict: Err, or Ok(e) whose re-encoding equals the input, and never Ok on input the grammar recogniser rejects. Outside: nesting-depth limits, random bytes",
+                bounds: "valid encoding of every shape of <=6 (quick) / <=8 (thorough) elements + 30 hand-written shapes + obscured shapes <=4 x every single structural mutation of its CBOR tree (swap two assertion elements, duplicate one (in place / at the end), subject-only node, empty array, leaf / known value / wrapped assertion in an assertion slot, array extended, two-entry / empty assertion map, leaf retagged #6.24 (alias) / #6.999 / untagged, wrapped retagged, obscured element without digest / retagged, digest of 31 / 33 / 0 bytes, known value replaced by negative / text / float / bool), thorough: also double mutations x every digest order. Verdict: Err, or Ok(e) whose re-encoding equals the input, and never Ok on input the grammar recogniser rejects. Outside: nesting-depth limits, random bytes",
                 api: &["try_from_cbor_data", "from_untagged_cbor", "Assertion::try_from(CBOR)", "new_with_assertions"] },
             Scenario { name: "byte_level", f: byte_level, thorough_only: false,
                 bounds: "valid encoding (<=120 bytes quick / <=200 thorough) of every shape of <=4 (5) elements + 3 larger / obscured ones x every byte position x {every single-bit flip, deletion, insertion of 9 values, overwrite with 17 head / tag / break values} (choice variables, exhaustively forked). dcbor's byte decoder is executed, not solver-decided; multi-byte mutations and random bytes are outside",
